@@ -175,20 +175,27 @@ def confirm_trait_lists(rt, model):
     spellings = ['Serialize', 'serde::Serialize', 'Debug', 'Debug, Serialize, PartialEq']
     if model.get('response_derives') and all(ch.isalnum() or ch in ':, _' for ch in model['response_derives']):
         spellings.append(model['response_derives'])
+    which = 'response_derives'
+    if model.get('field_type') == 'ID' or 'serde-path' in str(model.get('claim', '')):
+        # the serde path option: spellings of the same crate, on an ID field
+        which, spellings = 'serde_path', ['::serde', 'serde', 'graphql_client::_private::serde']
+        sdl = f'type Query {{ f: {K.graphql_type_expr(model.get("qualifiers") or [], "ID")} g: [Int] }}\n'
+        expr = K.graphql_type_expr(model.get('qualifiers') or [], 'ID')
     seen = {}
     rp = dict(kind='trait-lists', sdl=sdl, query=query, model=model)
     for sp in spellings:
-        r = rt.gen(sdl, query, {'skip_serializing_none': bool(model.get('skip_serializing_none', True)), 'response_derives': sp})
+        r = rt.gen(sdl, query, {'skip_serializing_none': bool(model.get('skip_serializing_none', True)), which: sp})
         if r['status'] != 'ok':
             return None, f'generation fails with response_derives = {sp!r}: {r["text"][:200]}', rp
         mod = native.find_mod(native.parse_generated(r['text']))
         it = native.find_item(mod.items, 'ResponseData', 'struct')
+        # (the serde path itself appears in `crate = ".."` on the item, not on fields)
         attrs = {f[0]: sorted(' '.join(a) for a in f[2] if a and a[0] == 'serde') for f in it.fields} if it else None
         seen[sp] = attrs
     base = seen[spellings[0]]
     for sp, attrs in seen.items():
         if attrs != base:
-            return False, (f'`f: {expr}`, `g: [Int]` with skip_serializing_none: the serde attributes of ResponseData differ between response_derives = {spellings[0]!r} '
+            return False, (f'`f: {expr}`, `g: [Int]` with skip_serializing_none: the serde attributes of ResponseData differ between {which} = {spellings[0]!r} '
                            f'({base}) and {sp!r} ({attrs})'), rp
     return True, 'attributes independent of the trait lists', rp
 
